@@ -467,6 +467,8 @@ pub open spec fn fold_dist(pieces: Seq<Seq<u8>>, i: int, v: DistinfoV) -> Distin
 pub open spec fn parse_distinfo(b: Seq<u8>) -> DistinfoV { fold_dist(split_nl(b), 0, dv_empty()) }
 
 impl Distinfo {
+    pub closed spec fn dmap(&self) -> Seq<(Seq<u8>, Entry)> { self.distfiles.view() }
+    pub closed spec fn pmap(&self) -> Seq<(Seq<u8>, Entry)> { self.patchfiles.view() }
     pub closed spec fn dv(&self) -> DistinfoV {
         DistinfoV { rcsid: match self.rcsid { Some(s) => Some(osbs(&s)), None => None }, dist: evs(self.distfiles.view()), patch: evs(self.patchfiles.view()) }
     }
@@ -863,6 +865,257 @@ impl Distinfo {
         }
         proof { assert(bytes@ =~= print_distinfo(dvv)); }
         bytes
+    }
+//@ end
+}
+
+// ================= verification against the file system (C12) =================
+use std::fs::File;
+use std::io;
+#[verifier::external_type_specification]
+#[verifier::external_body]
+pub struct ExFile(File);
+//@ extract src/distinfo.rs : enum DistinfoError
+//@ rewrite D12.drop_thiserror_attrs
+pub enum DistinfoError {
+    Io(io::Error),
+    Digest(DigestError),
+    NotFound,
+    Checksum(PathBuf, Digest, String, String),
+    MissingChecksum(PathBuf, Digest),
+    Size(PathBuf, u64, u64),
+    MissingSize(PathBuf),
+}
+//@ end
+// D12: thiserror #[from] expansions
+impl vstd::std_specs::convert::FromSpecImpl<io::Error> for DistinfoError {
+    open spec fn obeys_from_spec() -> bool { true }
+    open spec fn from_spec(e: io::Error) -> DistinfoError { DistinfoError::Io(e) }
+}
+impl From<io::Error> for DistinfoError { fn from(e: io::Error) -> DistinfoError { DistinfoError::Io(e) } }
+impl vstd::std_specs::convert::FromSpecImpl<DigestError> for DistinfoError {
+    open spec fn obeys_from_spec() -> bool { true }
+    open spec fn from_spec(e: DigestError) -> DistinfoError { DistinfoError::Digest(e) }
+}
+impl From<DigestError> for DistinfoError { fn from(e: DigestError) -> DistinfoError { DistinfoError::Digest(e) } }
+
+/// the world: length of the file at a path / digest of its content (None = the operation reports an I/O or digest error).
+/// That w_digest is the standard algorithm (over the patch-filtered content for patches) is C13, not decided here.
+pub uninterp spec fn w_len(path: Seq<u8>) -> Option<int>;
+pub uninterp spec fn w_digest(d: Digest, kind: EntryType, path: Seq<u8>) -> Option<Seq<char>>;
+pub uninterp spec fn fpath(f: &File) -> Seq<u8>;
+#[verifier::external_body]
+fn shim_file_open(path: &Path) -> (r: io::Result<File>)
+    ensures r is Ok ==> fpath(&r->Ok_0) == pab(path), r is Err ==> w_len(pab(path)) is None && forall|d: Digest, k: EntryType| w_digest(d, k, pab(path)) is None
+{ File::open(path) }
+#[verifier::external_body]
+fn shim_file_len(f: &File) -> (r: io::Result<u64>)
+    ensures (match w_len(fpath(f)) { Some(n) => r is Ok && r->Ok_0 == n, None => r is Err })
+{ Ok(f.metadata()?.len()) }
+#[verifier::external_body]
+fn shim_hash_file(d: &Digest, f: &mut File) -> (r: DigestResult<String>)
+    ensures fpath(final(f)) == fpath(old(f)), (match w_digest(*d, EntryType::Distfile, fpath(old(f))) { Some(h) => r is Ok && r->Ok_0@ == h, None => r is Err })
+{ unimplemented!() }
+#[verifier::external_body]
+fn shim_hash_patch(d: &Digest, f: &mut File) -> (r: DigestResult<String>)
+    ensures fpath(final(f)) == fpath(old(f)), (match w_digest(*d, EntryType::Patchfile, fpath(old(f))) { Some(h) => r is Ok && r->Ok_0@ == h, None => r is Err })
+{ unimplemented!() }
+#[verifier::external_body]
+fn shim_string_ne(a: &String, b: &String) -> (r: bool) ensures r == (a@ != b@) { a != b }
+#[verifier::external_body]
+fn shim_digest_ne(a: &Digest, b: &Digest) -> (r: bool) ensures r == (*a != *b) { a != b }
+pub assume_specification [<PathBuf as Clone>::clone] (p: &PathBuf) -> (r: PathBuf) ensures pbb(&r) == pbb(p);
+
+/// index of the first recorded checksum of algorithm d at or after i
+pub open spec fn first_sum(s: Seq<(Digest, Seq<char>)>, d: Digest, i: int) -> Option<int> decreases s.len() - i {
+    if i < 0 || i >= s.len() { None } else if s[i].0 == d { Some(i) } else { first_sum(s, d, i + 1) }
+}
+// ---- path algebra (assumed, std::path): components of a path and the path made of components
+pub uninterp spec fn pcomps(b: Seq<u8>) -> Seq<Seq<u8>>;
+pub uninterp spec fn pfrom(cs: Seq<Seq<u8>>) -> Seq<u8>;
+pub axiom fn axiom_pcomps_empty() ensures pcomps(Seq::<u8>::empty()) == Seq::<Seq<u8>>::empty();
+pub axiom fn axiom_pfrom(cs: Seq<Seq<u8>>) ensures pcomps(pfrom(cs)) == cs;
+/// path equality is equality of component sequences
+pub axiom fn axiom_pkey_comps(b: Seq<u8>) ensures forall|c: Seq<u8>| (pkey(b) == pkey(c)) == (pcomps(b) == #[trigger] pcomps(c));
+#[verifier::external_body]
+fn shim_path_iter_rev<'a>(p: &'a Path) -> (r: Vec<&'a OsStr>)
+    ensures r@.len() == pcomps(pab(p)).len(), forall|i: int| 0 <= i < r@.len() ==> osb(#[trigger] r@[i]) == pcomps(pab(p))[r@.len() - 1 - i]
+{ p.iter().rev().collect() }
+#[verifier::external_body]
+fn shim_parent_is_none(p: &PathBuf) -> (r: bool)
+    ensures r == (pcomps(pbb(p)).len() == 0)
+{ p.parent().is_none() }
+#[verifier::external_body]
+fn shim_pathbuf_from(c: &OsStr) -> (r: PathBuf)
+    ensures pbb(&r) == pfrom(seq![osb(c)])
+{ PathBuf::from(c) }
+#[verifier::external_body]
+fn shim_pathbuf_join(c: &OsStr, f: PathBuf) -> (r: PathBuf)
+    ensures pbb(&r) == pfrom(seq![osb(c)] + pcomps(pbb(&f)))
+{ PathBuf::from(c).join(f) }
+/// the shortest recorded trailing sub-path: smallest k >= from such that the last k components are a recorded name
+pub open spec fn found_at(m: Seq<(Seq<u8>, Entry)>, comps: Seq<Seq<u8>>, from: int) -> Option<(int, int)> decreases comps.len() - from + 1 {
+    if from < 1 || from > comps.len() { None }
+    else {
+        let i = find_key(m, pfrom(comps.skip(comps.len() - from)));
+        if i >= 0 { Some((from, i)) } else { found_at(m, comps, from + 1) }
+    }
+}
+
+impl Entry {
+//@ extract src/distinfo.rs : impl Entry fn verify_size
+//@ rewrite D9.generic_path_param D6.file_open_q D6.file_metadata_len_q
+    pub fn verify_size<P: AsRef<Path>>(
+        &self,
+        path: P,
+    ) -> (r: Result<u64, DistinfoError>)
+        ensures (match self.size {
+            Some(size) => match w_len(pab(path)) {
+                Some(n) => if n == size as int { r == Ok::<u64, DistinfoError>(size) }
+                           else { r is Err && r->Err_0 is Size && pbb(&r->Err_0->Size_0) == pbb(&self.filename) && r->Err_0->Size_1 == size && r->Err_0->Size_2 == n },
+                None => r is Err && r->Err_0 is Io,
+            },
+            None => r is Err && r->Err_0 is MissingSize && pbb(&r->Err_0->MissingSize_0) == pab(path),
+        })
+    {
+        if let Some(size) = self.size {
+            let f = File::open(path)?;
+            let fsize = f.metadata()?.len();
+            if fsize != size {
+                return Err(DistinfoError::Size(
+                    self.filename.clone(),
+                    size,
+                    fsize,
+                ));
+            } else {
+                return Ok(size);
+            }
+        }
+        Err(DistinfoError::MissingSize(path.as_ref().to_path_buf()))
+    }
+//@ end
+//@ extract src/distinfo.rs : impl Entry fn verify_checksum_internal
+//@ rewrite D9.generic_path_param D1.for_self_checksums_while D6.digest_ne D6.file_open_q D6.hash_file_q D6.hash_patch_q D6.string_ne_field
+    fn verify_checksum_internal<P: AsRef<Path>>(
+        &self,
+        path: P,
+        digest: Digest,
+    ) -> (r: Result<Digest, DistinfoError>)
+        ensures (match first_sum(sums_v(self.checksums@), digest, 0) {
+            None => r is Err && r->Err_0 is MissingChecksum && pbb(&r->Err_0->MissingChecksum_0) == pab(path) && r->Err_0->MissingChecksum_1 == digest,
+            Some(k) => match w_digest(digest, self.filetype, pab(path)) {
+                None => r is Err && (r->Err_0 is Io || r->Err_0 is Digest),
+                Some(actual) => if actual == self.checksums@[k].hash@ { r == Ok::<Digest, DistinfoError>(digest) }
+                    else { r is Err && r->Err_0 is Checksum && pbb(&r->Err_0->Checksum_0) == pbb(&self.filename) && r->Err_0->Checksum_1 == digest
+                           && r->Err_0->Checksum_2@ == self.checksums@[k].hash@ && r->Err_0->Checksum_3@ == actual },
+            },
+        })
+    {
+        let mut __i_c: usize = 0;
+        while __i_c < self.checksums.len()
+            invariant __i_c <= self.checksums@.len(),
+                first_sum(sums_v(self.checksums@), digest, __i_c as int) == first_sum(sums_v(self.checksums@), digest, 0),
+            decreases self.checksums@.len() - __i_c
+        {
+            let c = &self.checksums[__i_c];
+            proof { assert(sums_v(self.checksums@)[__i_c as int] == (c.digest, c.hash@)); }
+            __i_c += 1;
+            if digest != c.digest {
+                continue;
+            }
+            let mut f = File::open(path)?;
+            let hash = match self.filetype {
+                EntryType::Distfile => c.digest.hash_file(&mut f)?,
+                EntryType::Patchfile => c.digest.hash_patch(&mut f)?,
+            };
+            if hash != c.hash {
+                return Err(DistinfoError::Checksum(
+                    self.filename.clone(),
+                    c.digest,
+                    c.hash.clone(),
+                    hash,
+                ));
+            } else {
+                return Ok(digest);
+            }
+        }
+        Err(DistinfoError::MissingChecksum(
+            path.as_ref().to_path_buf(),
+            digest,
+        ))
+    }
+//@ end
+}
+impl Distinfo {
+//@ extract src/distinfo.rs : impl Distinfo fn get_distfile
+//@ rewrite D9.generic_path_param
+    pub fn get_distfile<P: AsRef<Path>>(&self, path: P) -> (r: Option<&Entry>)
+        ensures (match r { Some(e) => find_key(self.dmap(), pab(path)) >= 0 && *e == self.dmap()[find_key(self.dmap(), pab(path))].1,
+                           None => find_key(self.dmap(), pab(path)) < 0 })
+    {
+        self.distfiles.get(path.as_ref())
+    }
+//@ end
+//@ extract src/distinfo.rs : impl Distinfo fn get_patchfile
+//@ rewrite D9.generic_path_param
+    pub fn get_patchfile<P: AsRef<Path>>(&self, path: P) -> (r: Option<&Entry>)
+        ensures (match r { Some(e) => find_key(self.pmap(), pab(path)) >= 0 && *e == self.pmap()[find_key(self.pmap(), pab(path))].1,
+                           None => find_key(self.pmap(), pab(path)) < 0 })
+    {
+        self.patchfiles.get(path.as_ref())
+    }
+//@ end
+//@ extract src/distinfo.rs : impl Distinfo fn find_entry
+//@ rewrite D9.generic_path_param D6.path_iter_rev D6.parent_is_none D6.pathbuf_from_join D6.pathbuf_from_component
+    pub fn find_entry<P: AsRef<Path>>(
+        &self,
+        path: P,
+    ) -> (r: Result<&Entry, DistinfoError>)
+        requires self.wf()
+        ensures (match found_at(if class_of(pab(path)) == EntryType::Patchfile { self.pmap() } else { self.dmap() }, pcomps(pab(path)), 1) {
+            Some((k, i)) => r is Ok && *r->Ok_0 == (if class_of(pab(path)) == EntryType::Patchfile { self.pmap() } else { self.dmap() })[i].1,
+            None => r is Err && r->Err_0 is NotFound,
+        })
+    {
+        let filetype = EntryType::from(path.as_ref());
+        let mut file = PathBuf::new();
+        let ghost comps = pcomps(pab(path));
+        let ghost m = if class_of(pab(path)) == EntryType::Patchfile { self.pmap() } else { self.dmap() };
+        proof { axiom_pcomps_empty(); assert(comps.skip(comps.len() as int) =~= Seq::<Seq<u8>>::empty()); }
+        for component in it: path.as_ref().iter().rev()
+            invariant
+                comps == pcomps(pab(path)), filetype == class_of(pab(path)),
+                m == (if class_of(pab(path)) == EntryType::Patchfile { self.pmap() } else { self.dmap() }),
+                it.snapshot@.remaining().len() == comps.len(),
+                forall|i: int| 0 <= i < comps.len() ==> osb(#[trigger] it.snapshot@.remaining()[i]) == comps[comps.len() - 1 - i],
+                pcomps(pbb(&file)) == comps.skip(comps.len() - it.index@),
+                found_at(m, comps, it.index@ + 1) == found_at(m, comps, 1),
+        {
+            let ghost k = it.index@ as int;
+            proof { axiom_pfrom(seq![osb(component)]); axiom_pfrom(seq![osb(component)] + pcomps(pbb(&file))); }
+            if file.parent().is_none() {
+                file = PathBuf::from(component);
+            } else {
+                file = PathBuf::from(component).join(file);
+            }
+            proof {
+                assert(pcomps(pbb(&file)) =~= comps.skip(comps.len() - (k + 1)));
+                axiom_pkey_comps(pbb(&file));
+            }
+            match filetype {
+                EntryType::Distfile => {
+                    if let Some(entry) = self.get_distfile(&file) {
+                        return Ok(entry);
+                    }
+                }
+                EntryType::Patchfile => {
+                    if let Some(entry) = self.get_patchfile(&file) {
+                        return Ok(entry);
+                    }
+                }
+            }
+        }
+        Err(DistinfoError::NotFound)
     }
 //@ end
 }
